@@ -179,11 +179,14 @@ func init() {
 				{P: P("S6", 165, 3, 3, 0, 1, false), Need: []string{"RelayLearned", "TruncatedDeltas"}},
 				{P: P("S6", 165, 2, 3, 0, 1, true), Need: []string{"LeavesSeen", "Unreachables", "Relearned"}},
 				{P: P("S6", 1400, 3, 2, 0, 0, true), Need: []string{"LeavesSeen"}},
+				// endpoint ids containing ':' (size 1401 = the S6y variant)
+				{P: P("S6", 1401, 3, 3, 0, 1, false), Need: []string{"RelayLearned"}},
 				// endpoint ids of different lengths (negative size = the S6x variant)
 				{P: P("S6", -200, 3, 3, 0, 1, false), Need: []string{"TruncatedDeltas", "RelayLearned"}},
 				{P: P("S6", -230, 3, 3, 0, 1, false), Need: []string{"TruncatedDeltas", "RelayLearned"}},
 				// four owner operations: a compaction with a live endpoint newer than the newest tombstone
-				{P: P("S6", 1400, 4, 3, 0, 1, false), Need: []string{"RelayLearned", "MarkersApplied"}},
+				// (dups=1: also a duplicated / late datagram after the owner compacted)
+				{P: P("S6", 1400, 4, 3, 1, 1, false), Need: []string{"RelayLearned", "MarkersApplied"}},
 			}
 		} else {
 			d := sec(300)
